@@ -123,6 +123,16 @@ def execute(case: Dict[str, Any], M: Optional[Model] = None, built: Any = None, 
                 b = built
             else:
                 b = prog.build(P, is_async=bool(case.get("async")), mc=case.get("build_mc", M.mc), decorate_attrs=(via != "config"))
+            if case.get("warm") and built is None:
+                # an earlier, unobserved call of the same instance (before any reconfiguration): whatever tawazi
+                # remembers from it must not influence the observed execution
+                try:
+                    if case.get("async"):
+                        asyncio.run(b.dag(*args))
+                    else:
+                        b.dag(*args)
+                except Exception:  # noqa: BLE001 - e.g. a missing argument; the observed call is judged on its own
+                    pass
             if via == "config" and built is None:
                 conf = prog.config_dict(P)
                 if "build_mc" in case:
@@ -142,14 +152,17 @@ def execute(case: Dict[str, Any], M: Optional[Model] = None, built: Any = None, 
             if case.get("call") == "setup":
                 ids = b.node_ids()
                 tn = None if not sel or sel.get("T") is None else [ids[x] for x in sel["T"]]
+                skw: Dict[str, Any] = {"target_nodes": tn}
+                if sel and sel.get("R") is not None:
+                    skw["root_nodes"] = [ids[x] for x in sel["R"]]
                 dag_ = b.dag
                 if case.get("async"):
                     async def _setup_async(*_a: Any) -> Any:
-                        return await dag_.setup(target_nodes=tn)
+                        return await dag_.setup(**skw)
 
                     target = _setup_async
                 else:
-                    target = lambda *_a: dag_.setup(target_nodes=tn)  # noqa: E731
+                    target = lambda *_a: dag_.setup(**skw)  # noqa: E731
                 sel = None
             if target_override is not None:
                 target = target_override
